@@ -534,6 +534,8 @@ def native_replay(cdir, pid, full_name, vals, log, features=()):
                 oc = "panicked"
             elif p.returncode == 77:
                 oc = "assume_violated"
+            elif p.returncode < 0 or p.returncode in (134, 139):
+                oc = "crashed"          # killed by a signal: stack overflow / abort (e.g. unbounded recursion)
             else:
                 oc = "error"
             out[prof] = {"outcome": oc, "message": msg.strip(), "rc": p.returncode}
@@ -546,4 +548,4 @@ def reproduces(replay, should_panic=False):
     oks = [r["outcome"] for r in replay.values()]
     if should_panic:
         return any(o == "returned" for o in oks)
-    return any(o == "panicked" for o in oks)
+    return any(o in ("panicked", "crashed") for o in oks)
